@@ -49,7 +49,8 @@ int write_wdc(Memory *memory, FILE *out)
         address = -1;
       }
     }
-      else
+
+    if (memory->read_debug(n) != DL_EMPTY)
     {
       if (address == -1) { address = n; }
 
